@@ -1136,6 +1136,8 @@ func c11Scenarios(a lib.Args) []c11Scn {
 		mk("put", short, "present", false, false, "Enabled", false),
 		mk("delete", short, "present", false, false, "Enabled", false),
 		mk("put", short, "present", false, true, "", false),
+		mk("delete", short, "present", false, true, "", false), // sidecar: attributes and object removed in separate steps
+		mk("copy", flat, "absent", false, true, "", true),
 	)
 	fresh := mk("put", flat, "absent", false, false, "", false)
 	fresh.OtherKey = "" // first request into a new bucket: no .sgwtmp yet
